@@ -153,6 +153,29 @@ ADD5 = {
  "C19": "every admitted covert passed the subnet lists and the domain patterns (shared with C06.1).",
 }
 
+ADD6 = {
+ "C01": "selection never narrows a big integer to 64 bits unless it was drawn below a 64-bit bound; the DTLS peer check compares no clock-derived certificate field.",
+ "C02": "(shared) the prefix transport looks its registration up under the tag revealed from the whole tag of this connection.",
+ "C03": "the prefix lookup key (shared with C02.4); a TCP peer's address is read from its *net.TCPAddr, not re-parsed from text.",
+ "C04": "no connection type of the transports takes one write lock in both Read and Write; the per-phantom table is keyed by net.IP.String() at every site.",
+ "C05": "no relay connection is closed with a zero linger interval; the DTLS receive loop reads every message into a buffer allocated for it (shared with C16.4).",
+ "C06": "an interface address reported as a network is blocklisted as that network when covert_blocklist_public_addrs is set.",
+ "C07": "the probe answers 'not live' only when nothing was reported before the deadline or the report is a timeout; the covert of a registration is written at construction and admission only (shared with C06.3); the phantom blocklist is passed by every source but the local detector.",
+ "C08": "MarkActive completes (is called, not deferred) before the relay starts.",
+ "C09": "table entries are deleted by the sweep's removeRegistration only (or under a not-valid test); no goroutine adds itself to the wait group that waits for it.",
+ "C10": "every registration NewRegistrationC2SWrapper returns carries the registrant address.",
+ "C11": "the candidate set handed to connection handlers is a copy made under the lock (shared with C08.6).",
+ "C12": "a failed phantom selection fails the bidirectional request; the processor keeps the whole configured exclusion list.",
+ "C13": "on SIGHUP the subnets are reloaded before the new ClientConf generation is published; selection only reads the selector (shared with C14.1).",
+ "C14": "sync.Map writes on an input count as impurity.",
+ "C15": "readMessage refuses a message only with the error of a field read; the encoder's compression-pointer chains stay within the decoder's pointer limit (genuine defect, fixed in 59fdb69).",
+ "C16": "(shared with C05.8) per-message receive buffer.",
+ "C17": "getpeername is a source, single bytes carry address taint, and a gate on a logger's own level field counts only if New initialises the field from the package default.",
+ "C18": "after a probe the answer is the probe's verdict; every insertion into the LRU cache's map is registered with the LRU.",
+ "C19": "the phantom blocklist is applied to every source except the local detector; the reload path deletes nothing from the registration tables.",
+ "C20": "the store marshals with the required-field check the loader applies (no AllowPartial).",
+}
+
 ALL = ["C%02d" % i for i in range(1, 21)]
 
 def main():
@@ -167,7 +190,7 @@ def main():
                 "evidence_file": "/verif/evidence/%s.json" % pid,
                 "replay_cmd_template": "cat {path}",
                 "engine": "cjverif",
-                "level_claimed": {"category": "other", "text": ent[2] + (" Further decided (seed rounds 3-4, DESIGN 10.5): " + ADD34[pid] if pid in ADD34 else "") + (" Round 5: " + ADD5[pid] if pid in ADD5 else ""), "design_ref": "DESIGN.md section " + ent[3] + " and 10.2"},
+                "level_claimed": {"category": "other", "text": ent[2] + (" Further decided (seed rounds 3-4, DESIGN 10.5): " + ADD34[pid] if pid in ADD34 else "") + (" Round 5: " + ADD5[pid] if pid in ADD5 else "") + (" Round 6: " + ADD6[pid] if pid in ADD6 else ""), "design_ref": "DESIGN.md section " + ent[3] + " and 10.2"},
                 "level_note": NOTE,
                 "technique": "static analysis: " + ent[1],
             })
@@ -187,7 +210,7 @@ def main():
         "engines": [{
             "name": "cjverif", "path": "/verif/cmd/cjverif",
             "serves_properties": [c["property_id"] for c in checks],
-            "kind_free_text": "repository-specific static analyser over go/packages + go/ssa (guard dominance/reachability, locksets, interprocedural taint, error classes, draw sequences, bounds, predicate tables, constant tables, cross-language rule extraction); engine fixtures run before every check; short-circuit threading, predicate summaries and phase-split queries see through condition forms and helpers; overlay-based mutant corpus, ~520 rename controls, 72 behaviour-preserving refactoring controls and the replay of 200 independently seeded changes keep it honest",
+            "kind_free_text": "repository-specific static analyser over go/packages + go/ssa (guard dominance/reachability, locksets, interprocedural taint, error classes, draw sequences, bounds, predicate tables, constant tables, cross-language rule extraction); engine fixtures run before every check; short-circuit threading, predicate summaries and phase-split queries see through condition forms and helpers; overlay-based mutant corpus, ~520 rename controls, 96 behaviour-preserving refactoring controls and the replay of 240 independently seeded changes keep it honest",
         }],
         "checks": checks,
         "not_applicable": na,
